@@ -76,6 +76,22 @@ class Stop:
             t = sched.CThread(target=stopper, name="stopper")
             t.start()
             s.settle()
+        elif p["mode"] == "twin":
+            # stop() is called from a handler of ANOTHER active object that carries the same name (names are not unique:
+            # unnamed objects started at the same state derive equal names); for a1 that is "another thread"
+            def kill(chart, e):
+                a1.stop()
+                info["stop_step"] = s.steps
+                info["alive_after"] = a1.thread._vt is not None and not a1.thread._vt.finished
+                info["flags_after"] = [f._flag for f in flags]
+                info["tracked_after"] = len(a1.posted_events_queue)
+                s.note("stop-returned")
+            st3 = H.make_state(name="st3", script={"K": [("call", kill)]})
+            tw = H.new_ao("tw", st3, start=False)
+            tw.name = a1.name
+            tw.start_at(st3)
+            tw.post_fifo(Event(signal="K", payload="kill"))
+            s.settle()
         else:
             a1.post_fifo(Event(signal="S", payload="stop"))
             a1.post_fifo(Event(signal="A", payload="after"))
@@ -85,7 +101,7 @@ class Stop:
         a2.post_fifo(Event(signal="B", payload="fresh"))
         a2.publish(Event(signal="C", payload="pub"))
         s.settle()
-        rtc1 = [(x[0], x[5]) for x in s.log if x[3] == "rtc-begin" and x[4] == "a1" and x[0] >= w0]
+        rtc1 = [(x[0], x[5]) for x in s.log if x[3] == "rtc-begin" and x[4] == "a1" and x[0] >= w0 and x[5] != "K/kill"]
         rtc2 = [(x[0], x[5]) for x in s.log if x[3] == "rtc-begin" and x[4] == "a2" and x[0] >= mid]
         apps = [(x[0], x[1], x[4]) for x in H.dq_ops(s, "a1") if x[3] in ("append", "appendleft") and (x[4] or "").startswith("D/")]
         info.update({"rtc1": rtc1, "rtc2": [l for _, l in rtc2], "timer_appends": apps,
@@ -106,7 +122,7 @@ class Stop:
         out = []
         if o["thread_exceptions"]:
             out.append((tag + "/exception", "%r" % (o["thread_exceptions"],)))
-        if p["mode"] == "outside":
+        if p["mode"] in ("outside", "twin"):
             ss = o.get("stop_step")
             if ss is None:
                 return out + [(tag + "/stop-did-not-return", "stop() never returned")]
@@ -134,7 +150,7 @@ class Stop:
                 late = [x for x in o["rtc1"] if x[0] > sh[0]]
                 if late:
                     out.append((tag + "/step-after-stop", "steps %r ran after the step that called stop()" % (late,)))
-        if not o["a1_finished"] and p["mode"] == "outside":
+        if not o["a1_finished"] and p["mode"] in ("outside", "twin"):
             out.append((tag + "/thread-alive-at-end", "thread alive at quiescence"))
         if sorted(o["rtc2"]) != ["B/fresh", "C/pub"] or not o["a2_alive"] or len(o["fabric_alive"]) != 2:
             out.append((tag + "/bystander", "after the stop the other active object dispatched %r (expected B/fresh and C/pub), alive=%s, fabric threads %r" % (
@@ -158,6 +174,9 @@ def params(tier):
     for sources in (0, 1):
         ps.append({"mode": "outside", "pending": 0, "sources": sources, "racer_post": "early", "bound": 1 if q else 2, "time_horizon": 0.5})
         ps.append({"mode": "outside", "pending": 0, "sources": sources, "racer_post": "late", "bound": 1 if q else 2, "time_horizon": 0.5})
+    for pending in (1, 2):
+        ps.append({"mode": "twin", "pending": pending, "sources": 1, "bound": 1, "time_horizon": 0.5})
+    ps.append({"mode": "twin", "pending": 1, "sources": 0, "arm": "deferred", "bound": 1, "time_horizon": 0.5})
     for pending in (0, 1):
         for sources in (0, 1):
             ps.append({"mode": "handler", "pending": pending, "sources": sources, "bound": 1 if q else 2,
